@@ -1,4 +1,4 @@
 CONSTANTS MsgLens <- L2  K = 3  AllowCancel = FALSE
 SPECIFICATION Spec
-INVARIANTS Intact AllArrives
+INVARIANTS Intact AllArrives EndBehindData
 CHECK_DEADLOCK FALSE
